@@ -497,6 +497,7 @@ struct InclEngine : Engine {
 				o["out"] = digest(alld);
 				g_log.ev("op", kind + ":" + o.gets("out"));
 				st.insert(kind + (batch ? "B" : "") + "/f" + std::to_string(cfmt) + "/o" + std::to_string(std::min<size_t>(total_opens, 12)));
+				if (viol.is_null() && g_sim.open_read_streams > 0) { viol = Json::object(); viol["clause"] = "file_left_open"; viol["class"] = kind; viol["op"] = (int64_t)k; viol["detail"] = std::to_string(g_sim.open_read_streams) + " file(s) opened for reading were never closed: a process that includes enough such files runs out of descriptors, after which every existing file is treated as missing"; }
 				outs.push(o); executed++;
 				continue;
 			}
@@ -558,6 +559,7 @@ struct InclEngine : Engine {
 					viol = Json::object(); viol["clause"] = "manifest_differs"; viol["class"] = kind; viol["op"] = (int64_t)k; viol["detail"] = "library [" + g + "] model [" + m2 + "]";
 				}
 			}
+			if (viol.is_null() && g_sim.open_read_streams > 0) { viol = Json::object(); viol["clause"] = "file_left_open"; viol["class"] = kind; viol["op"] = (int64_t)k; viol["detail"] = std::to_string(g_sim.open_read_streams) + " file(s) opened for reading were never closed: a process that includes enough such files runs out of descriptors, after which every existing file is treated as missing"; }
 			o["out"] = digest(kind == "TRANSCLUDE" ? got : std::to_string(got_manifest.size()));
 			g_log.ev("op", kind + ":" + o.gets("out") + ":" + std::to_string(lib_opens));
 			st.insert(kind + "/f" + std::to_string(fmt) + "/c" + std::to_string(ref.cyclic) + "/d" + std::to_string(std::min(ref.depth_max, 5)) + "/o" + std::to_string(std::min<uint64_t>(lib_opens, 12)));
